@@ -411,8 +411,9 @@ def _make_fields_iterator(
         attribs = inspection.get_type_hints(tp, exhaustive=False)
         public_attribs = [k for k in attribs if not k.startswith("_")]
     # If that didn't work, look for `__slots__`.
+    #   The attribute names only the slots a class adds itself, so collect the bases' too.
     if not public_attribs and hasattr(tp, "__slots__"):
-        public_attribs = [s for s in tp.__slots__ if not s.startswith("_")]
+        public_attribs = [s for s in _all_slots(tp) if not s.startswith("_")]
     # If we located all public attributes, create a factory function for iterating over
     #   these fields and fetching the value from an instance.
     if public_attribs:
@@ -431,6 +432,14 @@ def _make_fields_iterator(
         return ((k, v) for k, v in attribs.items() if not k.startswith("_"))
 
     return _itervars
+
+
+def _all_slots(tp: type) -> list[str]:
+    slots: dict[str, None] = {}
+    for base in reversed(tp.__mro__):
+        own = base.__dict__.get("__slots__", ())
+        slots.update(dict.fromkeys((own,) if isinstance(own, str) else own))
+    return [*slots]
 
 
 def load(val: _T) -> PythonValueT | _T:
